@@ -384,7 +384,7 @@ def accepted3_ops(rng, n, kind="D3"):
     ops = []
     for _ in range(n):
         L = rng.below(3)
-        ops.append(_op(kind, L, vec.rand_v3(rng, L)))
+        ops.append(_op(kind, L, vec.special_vector(rng, 3, L) if rng.chance(1, 10) else vec.rand_v3(rng, L)))
     return ops
 
 
@@ -392,7 +392,7 @@ def accepted2_ops(rng, n, kind="D2"):
     ops = []
     for _ in range(n):
         L = rng.below(3)
-        ops.append(_op(kind, L, vec.rand_v2(rng, L)))
+        ops.append(_op(kind, L, vec.special_vector(rng, 2, L) if rng.chance(1, 10) else vec.rand_v2(rng, L)))
     return ops
 
 
